@@ -132,7 +132,8 @@ def run(ctx):
     insert_m = table.one(table.inserting(), 'inserting')
     ctx_param = [k for k in range(1, insert_m.argc + 1) if insert_m.local_ty(k).endswith('context::Context')]
     if len(ctx_param) != 1:
-        raise CannotDecide('client table insert: context parameter')
+        R.ob('C18.wire', ('client table insert', 'takes the call\'s context'), False, 'registering a request hands its context to the in-flight table', [insert_m.loc(insert_m.d)])
+        ctx_param = [None]
     ctx_param = ctx_param[0]
     rsends = message_send_sites(F, P, reach, 'Request')
     R.ob('C18.wire', ('dispatch poll', 'request send site'), len(rsends) >= 1, 'the dispatch writes requests', [g.loc(t) for g, _, t, _ in rsends] or [poll.loc(poll.d)])
@@ -146,7 +147,7 @@ def run(ctx):
              'the trace context written into the request is that of the same dequeued call as the request id', [g.loc(st_)],
              str([P.describe(r) + str(list(norm_path(p))) for r, p in wire_tc]))
         for bb, t in g.calls():
-            if F.callee_fn(t) is insert_m:
+            if F.callee_fn(t) is insert_m and ctx_param is not None:
                 st = P.root(P.operand(g, t['args'][ctx_param - 1], at=bb))
                 ok = bool(st) and {r for r, _ in st} == {r for r, _ in wire_id} and all(P.fpath(p)[-1:] == (dr_ctx_field,) for r, p in st)
                 R.ob('C18.wire', ('dispatch poll', 'table stores that context'), ok,
@@ -156,9 +157,11 @@ def run(ctx):
         for i, j, s in m.aggregates(table.data_path):
             cf = [x[0] for x in table.data['variants'][0]['fields'] if x[1].endswith('context::Context')]
             if len(cf) != 1:
-                raise CannotDecide('client table data: context field')
+                R.ob('C18.wire', ('client table insert', 'stores its context parameter'), False,
+                     'the in-flight entry keeps the call\'s context (needed for the cancellation message)', [m.loc(s)], 'the entry type has %d context fields' % len(cf))
+                continue
             rs = P.root(P._field(('agg', m.id, i, j), cf[0]))
-            R.ob('C18.wire', ('client table insert', 'stores its context parameter'), bool(rs) and all(r == ('param', insert_m.id, ctx_param) and not P.fpath(p) for r, p in rs),
+            R.ob('C18.wire', ('client table insert', 'stores its context parameter'), ctx_param is not None and bool(rs) and all(r == ('param', insert_m.id, ctx_param) and not P.fpath(p) for r, p in rs),
                  'the table entry holds the context it was given', [m.loc(s)])
     csends = message_send_sites(F, P, reach, 'Cancel')
     n_ctor = len(list(F.all_aggregates('ClientMessage', 'Cancel')))
